@@ -15,6 +15,93 @@ def _coherent(np, ifg, tag):
     return out
 
 
+# ------------------------------------------------------------------------------------------ class invariant (deductive)
+# Inv(ifg): whatever coordinate arrays are cached have the shape of the data, x is spaced by dx along columns and constant along
+# rows, y the other way round, and cached polar arrays are hypot / arctan2 of the cached Cartesian ones (and are only present when
+# the Cartesian ones are).  Every grid with these properties is  x[i,j] = x0 + j dx, y[i,j] = y0 + i dx  for some offsets, so "an
+# arbitrary state satisfying Inv" is: arbitrary data of arbitrary shape, arbitrary dx > 0, arbitrary offsets, and each cache either
+# absent or holding exactly that grid.  Each coordinate-affecting operation is proved to map Inv-states to Inv-states as seen
+# through the PUBLIC x / y / r / t properties; by induction over the history the exposed coordinates are coherent after any
+# sequence of them.  Operations that only write data VALUES (mask, fill, piston / tilt / power removal, spike clip) depend on NaN, which the
+# real-valued model does not have; they and crop (data-dependent bounding box) and filter stay with the bounded harness.
+_OPS = ['pad-samples-int', 'pad-samples-tuple', 'pad-shape', 'latcal', 'strip_latcal', 'recenter', 'read-only']
+
+
+def _inv_state(cache):
+    """an Interferogram in an arbitrary Inv-state; cache in {'none', 'xy', 'xyrt'}"""
+    np_ = get('prysm.mathops.np')
+    h, w = Int('h', 1), Int('w', 1)
+    d = Array('d', (h, w))
+    dx = Real('dx', pos=True)
+    ifg = get('prysm.interferogram.Interferogram')(d, dx=dx, wavelength=Real('wvl', pos=True))
+    x0, y0 = Real('x0'), Real('y0')
+    if cache != 'none':
+        X = np_.broadcast_to(x0 + np_.arange(w)[None, :] * dx, (h, w)) * 1.0
+        Y = np_.broadcast_to(y0 + np_.arange(h)[:, None] * dx, (h, w)) * 1.0
+        ifg._x, ifg._y = X, Y
+        if cache == 'xyrt':
+            ifg._r, ifg._t = np_.hypot(X, Y), np_.arctan2(Y, X)
+    return ifg, d, h, w, dx
+
+
+def _check_inv(ifg, H, W, dx, tag=''):
+    x, y = ifg.x, ifg.y
+    i, j = idx(H, 'pi'), idx(W, 'pj')
+    check(tag + 'coordinate-shapes', And(shape_is(x, H, W), shape_is(y, H, W)))
+    check(tag + 'x-spaced-by-current-dx', And(Implies(j + 1 < W, approx(elem(x, i, ite(j + 1 < W, j + 1, j)) - elem(x, i, j), dx, 1e-9)),
+                                              Implies(i + 1 < H, approx(elem(x, ite(i + 1 < H, i + 1, i), j), elem(x, i, j), 1e-9))))
+    check(tag + 'y-spaced-by-current-dx', And(Implies(i + 1 < H, approx(elem(y, ite(i + 1 < H, i + 1, i), j) - elem(y, i, j), dx, 1e-9)),
+                                              Implies(j + 1 < W, approx(elem(y, i, ite(j + 1 < W, j + 1, j)), elem(y, i, j), 1e-9))))
+    r, t = ifg.r, ifg.t
+    check(tag + 'polar-shapes', And(shape_is(r, H, W), shape_is(t, H, W)))
+    xe, ye = elem(x, i, j), elem(y, i, j)
+    check(tag + 'r-is-hypot-of-current-xy', And(elem(r, i, j) >= 0, approx(elem(r, i, j) * elem(r, i, j), xe * xe + ye * ye, 1e-9)))
+    if MODE == 'symbolic':
+        from pvc import symnp
+        check(tag + 't-is-arctan2-of-current-xy', elem(t, i, j) == symnp.arctan2(ye, xe))
+    else:
+        import math
+        check(tag + 't-is-arctan2-of-current-xy', approx(elem(t, i, j), math.atan2(ye, xe), 1e-9))
+
+
+@harness('C12', 'invariant/coordinates-coherent-after', variants=[dict(op=o, cache=c) for o in _OPS for c in ('none', 'xy', 'xyrt')],
+         fuc=['prysm._richdata.RichData.x', 'prysm._richdata.RichData.y', 'prysm._richdata.RichData.r', 'prysm._richdata.RichData.t',
+              'prysm.interferogram.Interferogram.pad', 'prysm.interferogram.Interferogram.latcal', 'prysm.interferogram.Interferogram.strip_latcal',
+              'prysm.interferogram.Interferogram.recenter'])
+def invariant_step(v):
+    """one step of the induction: from ANY state satisfying the class invariant (every shape, dx, grid offset, cache population),
+    after the operation the exposed x / y / r / t have the data's shape, are spaced by the current dx, and the polar arrays are
+    those of the current Cartesian ones; operations that do not change shape or spacing leave shape and dx as they were."""
+    ifg, d, h, w, dx = _inv_state(v['cache'])
+    op = v['op']
+    H, W, newdx = h, w, dx
+    if op == 'pad-samples-int':
+        p = Int('p', 0)
+        ifg.pad(samples=p)
+        H, W = h + p, w + p
+    elif op == 'pad-samples-tuple':
+        p, q = Int('p', 0), Int('q', 0)
+        ifg.pad(samples=(p, q))
+        H, W = h + p, w + q
+    elif op == 'pad-shape':
+        H, W = Int('H', 1), Int('W', 1)
+        assume(And(H >= h, W >= w))
+        ifg.pad(shape=(H, W))
+    elif op == 'latcal':
+        newdx = Real('plate_scale', pos=True)
+        ifg.latcal(newdx)
+    elif op == 'strip_latcal':
+        ifg.strip_latcal()
+        newdx = 1
+    elif op == 'recenter':
+        ifg.recenter()
+    check('data-shape', shape_is(ifg.data, H, W))
+    check('dx', approx(ifg.dx, newdx, 1e-12))
+    _check_inv(ifg, H, W, newdx)
+    if op == 'recenter':
+        check('origin-sample-is-zero', And(approx(elem(ifg.x, H // 2, W // 2), 0, 1e-9), approx(elem(ifg.y, H // 2, W // 2), 0, 1e-9)))
+
+
 @harness('C12', 'bounded/operation-histories', kind='bounded', variants=['random-history', 'statistics', 'idempotence'],
          fuc=['prysm._richdata.RichData.x', 'prysm._richdata.RichData.y', 'prysm._richdata.RichData.r', 'prysm._richdata.RichData.t',
               'prysm.interferogram.Interferogram.fill', 'prysm.interferogram.Interferogram.crop', 'prysm.interferogram.Interferogram.recenter',
